@@ -174,6 +174,79 @@ func describe(cs []schema.Change) string {
 	return strings.Join(out, ", ")
 }
 
+// ICase: a PostgreSQL time type in the spelling the inspector yields (information_schema's data_type: "timestamp with
+// time zone", not the alias ParseType and the HCL use), with every precision. Such a type is not a registered spec name,
+// so MarshalHCL writes it through the dialect's fallback spec function.
+type ICase struct {
+	T    string `json:"t"`
+	Prec int    `json:"prec"` // -1 = not set
+}
+
+var timeAlias = map[string]string{"timestamp without time zone": "timestamp", "timestamp with time zone": "timestamptz",
+	"time without time zone": "time", "time with time zone": "timetz", "timestamp": "timestamp", "timestamptz": "timestamptz", "time": "time", "timetz": "timetz"}
+
+func timeKey(t schema.Type) string {
+	tt, ok := t.(*schema.TimeType)
+	if !ok {
+		return fmt.Sprintf("%T", t)
+	}
+	p := 6 // PostgreSQL's default
+	if tt.Precision != nil {
+		p = *tt.Precision
+	}
+	return fmt.Sprintf("%s(%d)", timeAlias[strings.ToLower(tt.T)], p)
+}
+
+func checkInspected(c ICase) error {
+	build := func() *schema.Schema {
+		s := schema.New("app")
+		schema.NewRealm(s)
+		tt := &schema.TimeType{T: c.T}
+		if c.Prec >= 0 {
+			p := c.Prec
+			tt.Precision = &p
+		}
+		s.AddTables(schema.NewTable("t").AddColumns(schema.NewColumn("c").SetType(tt)))
+		return s
+	}
+	s0 := build()
+	h1, err := gm.MarshalHCL("postgres", s0)
+	if err != nil {
+		return fmt.Errorf("postgres: MarshalHCL failed: %v", err)
+	}
+	r1, err := gm.EvalHCL("postgres", h1)
+	if err != nil {
+		return fmt.Errorf("postgres: the marshalled HCL does not evaluate: %v\n%s", err, h1)
+	}
+	col, ok := r1.Schemas[0].Tables[0].Column("c")
+	if !ok {
+		return fmt.Errorf("postgres: column lost\n%s", h1)
+	}
+	if a, b := timeKey(s0.Tables[0].Columns[0].Type.Type), timeKey(col.Type.Type); a != b {
+		return fmt.Errorf("postgres: inspected type %q (precision %d) is %s, after the HCL round trip it is %s\nHCL:\n%s", c.T, c.Prec, a, b, h1)
+	}
+	differ := gm.Differ("postgres")
+	for _, dir := range []string{"forward", "backward"} {
+		r2, _ := gm.EvalHCL("postgres", h1)
+		a, b := build(), r2.Schemas[0]
+		if dir == "backward" {
+			a, b = b, a
+		}
+		ch, err := differ.SchemaDiff(a, b, schema.DiffNormalized())
+		if err != nil {
+			return fmt.Errorf("postgres: diff failed: %v", err)
+		}
+		if len(ch) > 0 {
+			return fmt.Errorf("postgres: %s diff between the inspected-form schema and its HCL round trip is not empty: %s\nHCL:\n%s", dir, describe(ch), h1)
+		}
+	}
+	h2, err := gm.MarshalHCL("postgres", r1.Schemas[0])
+	if err != nil || !bytes.Equal(h1, h2) {
+		return fmt.Errorf("postgres: marshalling the evaluated schema again gives different bytes (%v):\n%s\n--- second:\n%s", err, h1, h2)
+	}
+	return nil
+}
+
 // effectiveCharsets lists, per table and string column, the character set and collation in force (own, else the parent's).
 func effectiveCharsets(s *schema.Schema) string {
 	get := func(attrs []schema.Attr, cs, co string) (string, string) {
